@@ -3,6 +3,7 @@ package mon
 import (
 	"fmt"
 	"math"
+	"sort"
 	"strconv"
 	"strings"
 
@@ -375,6 +376,35 @@ func dominantSite() string {
 	return fmt.Sprintf("site%d", at)
 }
 
+// c02Probe writes a document from a loaded schema: one fragment per object or interface type, every field twice.
+func c02Probe(s *ast.Schema) string {
+	names := make([]string, 0, len(s.Types))
+	for n := range s.Types {
+		names = append(names, n)
+	}
+	sort.Strings(names)
+	var b strings.Builder
+	b.WriteString("{ __typename }")
+	for i, n := range names {
+		def := s.Types[n]
+		if def == nil || (def.Kind != ast.Object && def.Kind != ast.Interface) || len(def.Fields) == 0 || len(b.String()) > 6000 {
+			continue
+		}
+		fmt.Fprintf(&b, " fragment P%d on %s {", i, n)
+		for j, f := range def.Fields {
+			sub := " { __typename }"
+			if f.Type != nil {
+				if t := s.Types[f.Type.Name()]; t != nil && (t.Kind == ast.Scalar || t.Kind == ast.Enum) {
+					sub = ""
+				}
+			}
+			fmt.Fprintf(&b, " a%d: %s%s a%d: %s%s", j, f.Name, sub, j, f.Name, sub)
+		}
+		b.WriteString(" }")
+	}
+	return b.String()
+}
+
 func c02Check(x *core.Ctx, c *core.Case) {
 	x.OnPanic = func(v interface{}) (string, bool) {
 		if b, ok := v.(verifhook.BudgetExceeded); ok {
@@ -403,6 +433,19 @@ func c02Check(x *core.Ctx, c *core.Case) {
 			x.Count("schemas_loaded")
 			if s == nil {
 				x.Violate("result-shape:load", "neither a schema nor an error", "a schema or an error")
+				return
+			}
+			// whatever loaded - a generated schema, or a faulted or random one the loader happens to take - is a schema
+			// documents are validated against: a probe written from the loaded object itself selects every field of every
+			// object and interface type (the introspection types too) twice under one alias, with a sub-selection where the
+			// field's type is not a known leaf (after seeded change C02-wave10-A: definitions of built-in sources were no
+			// longer checked, and a field of an undefined type crashed the field-merging rule)
+			probe := c02Probe(s)
+			if d, perr := parser.ParseQuery(&ast.Source{Name: "probe.graphql", Input: probe}); perr == nil {
+				c02Steps(c02Budget(len(src)+len(probe)), func() { validator.Validate(s, d) })
+				x.Count("probe_documents_validated_against_whatever_loaded")
+			} else {
+				x.HarnessBug("probe document does not parse: " + perr.Error())
 			}
 		}
 	case "pair":
